@@ -10,6 +10,12 @@ spec -> code : TLC enumerates (ResourceMerge.tla over ResModel.tla) every tuple 
                sdk/resource package (Merge / NewWithAttributes / NewSchemaless / New / Detect /
                WithFromEnv / Environment / Equal / Equivalent) and compares the projection of what
                it observes with the successor state (membership where the statement leaves a choice).
+               ResourceCompose.tla (over the composition part of ResModel.tla) enumerates every environment
+               setting {OTEL_GO_X_RESOURCE unset/true/false} x {keys OTEL_RESOURCE_ATTRIBUTES provides} x
+               {OTEL_SERVICE_NAME} x {malformed member}: resource.Default() is executed for each in a fresh
+               SUBPROCESS (sync.Once), and the same settings x every option list of length <= 3 over
+               WithFromEnv / built-ins / WithAttributes / scripted detectors with colliding keys /
+               WithSchemaURL on resource.New; winners are projected per key onto source tags.
 code -> spec : harness/c19 builds seeded random resources (up to 12 attributes of all 8 value types,
                odd keys), lists, detector sequences and environment strings on the real code; TLC
                validates every recorded observation against the same operators
@@ -81,6 +87,46 @@ def res_configs(thorough):
     return cfgs
 
 
+# ---- composition of Default() / New(opts...) (ResourceCompose.tla)
+K4 = '{"service.name","service.instance.id","telemetry.sdk.name","custom.key"}'
+K5 = '{"service.name","service.instance.id","telemetry.sdk.name","custom.key","host.name"}'
+RA_FEW = ('{{}, {"service.name"}, {"telemetry.sdk.name","custom.key"}, '
+          '{"service.name","service.instance.id","telemetry.sdk.name","custom.key","host.name"}}')
+OPTS_QUICK = ('{EnvO, Bi("sdk"), Bi("host"), At({"service.name"}), At({"telemetry.sdk.name","custom.key","host.name"}), '
+              'Dt({"service.name","custom.key"},"u1","ok"), Dt({"telemetry.sdk.name","host.name"},"sc","partial"), '
+              'Dt({"service.name"},"","fail"), DtNil("ok"), Sch("u1"), Sch("sc")}')
+OPTS_BAD = '{EnvO, Bi("sdk"), At({"service.name"}), Dt({"service.name","custom.key"},"","ok")}'
+OPTS_WIDE = ('{EnvO, Bi("sdk"), At({"service.name","service.instance.id"}), Dt({"service.name","custom.key","telemetry.sdk.name"},"u1","ok"), '
+             'Dt({"host.name","service.instance.id"},"","partial"), Sch("u1")}')
+OPTS_ALL_BUILTINS = ('{EnvO, At({"service.name","host.name","process.pid","os.type"}), Dt({"host.id","container.id","telemetry.sdk.version"},"sc","ok"), Sch("sc")} '
+                     '\\cup {Bi(b) : b \\in {"sdk","host","hostid","os","ostype","osdesc","proc","procpid","procexe","procpath","procargs",'
+                     '"procowner","procrtname","procrtver","procrtdesc","container","containerid"}}')
+OPTS_L4 = ('{EnvO, Bi("sdk"), Bi("host"), At({"service.name","host.name"}), Dt({"service.name","custom.key"},"u1","ok"), '
+           'Dt({"telemetry.sdk.name"},"","fail"), Sch("sc")}')
+
+
+def compose_defs(mode, maxn, x, ra, sn="BOOLEAN", bad="{FALSE}", options="{}"):
+    return {"MODE": mode, "MAXN": maxn, "XCHOICES": x, "RACHOICES": ra, "SNCHOICES": sn, "BADCHOICES": bad, "OPTIONS": options}
+
+
+def compose_configs(thorough):
+    allx = '{"unset","true","false"}'
+    cfgs = [
+        dict(name="default-env", mode="default",
+             d=compose_defs("default", 0, allx, "SUBSET " + (K5 if thorough else K4), bad="BOOLEAN")),
+        dict(name="new-lists3", mode="new", d=compose_defs("new", 3, '{"unset"}', RA_FEW, options=OPTS_QUICK)),
+        dict(name="new-malformed-env", mode="new",
+             d=compose_defs("new", 3, '{"unset","true"}', '{{}, {"service.name","custom.key"}}', bad="{TRUE}", options=OPTS_BAD)),
+    ]
+    if thorough:
+        cfgs += [
+            dict(name="new-wide-env", mode="new", d=compose_defs("new", 3, '{"unset"}', "SUBSET " + K5, bad="BOOLEAN", options=OPTS_WIDE)),
+            dict(name="new-all-builtins", mode="new", d=compose_defs("new", 3, '{"unset"}', RA_FEW, sn="{TRUE}", options=OPTS_ALL_BUILTINS)),
+            dict(name="new-lists4", mode="new", d=compose_defs("new", 4, '{"true"}', RA_FEW, options=OPTS_L4)),
+        ]
+    return cfgs
+
+
 def nan_slice(res):
     return any(a["v"].startswith("FLOAT64SLICE") and "NaN" in a["v"] for a in res.get("attrs", []))
 
@@ -115,6 +161,10 @@ def run(ctx):
                 defines={"ALPHABET": alpha("k", "eq", "comma", "sp", "pvC", "pct"), "MAXLEN": 3, "RTLEN": 2,
                          "SVC": "{%s, %s}" % (UNSET, svc("j"))})
     zero_cov["cov-env"] = r["zero_cov"]
+    r = ctx.tlc(S, "MC_ResourceCompose", "MC_ResourceCompose.cfg", coverage=True, workers=1, name="cov-compose", count=False,
+                defines=compose_defs("new", 2, '{"unset","true"}', '{{}, {"service.name"}}', bad="BOOLEAN",
+                                     options='{EnvO, Bi("sdk"), At({"service.name"}), Sch("u1")}'))
+    zero_cov["cov-compose"] = r["zero_cov"]
     ctx.extra["zero_coverage_actions"] = zero_cov
     if any(zero_cov.values()):
         ctx.note_inconclusive("vacuity: actions never taken: %s" % zero_cov)
@@ -145,12 +195,28 @@ def run(ctx):
             ctx.evaluations += res["evaluations"]
             ctx.add_samples(res["samples"][:1], cap=8)
             handle_mismatches(ctx, res, c["name"])
+    # ---- spec -> code: composition of Default() (one subprocess per edge) and New(opts...) (serial, in-process)
+    for c in compose_configs(thorough):
+        r = ctx.tlc(S, "MC_ResourceCompose", "MC_ResourceCompose.cfg", defines=c["d"], want_edges=True, name=c["name"], timeout=3000)
+        if c["mode"] == "default":
+            creps = range(0, 12) if thorough else [ctx.seed, ctx.seed + 5]
+        else:
+            creps = range(0, 8, 2) if thorough else [ctx.seed]
+        for rep in creps:
+            out = os.path.join(ctx.work, "replay-%s-%d.json" % (c["name"], rep))
+            ctx.run([binp, "replay", "-mode", c["mode"], "-edges", r["edges_file"], "-rep", str(rep), "-out", out], timeout=3000)
+            res = json.load(open(out))
+            edges_total += res["evaluations"]
+            ctx.traces_validated += res["executed"]
+            ctx.evaluations += res["evaluations"]
+            ctx.add_samples(res["samples"][:1], cap=10)
+            handle_mismatches(ctx, res, c["name"])
     ctx.extra["edges_replayed"] = edges_total
     # ---- code -> spec
     n = 4000 if thorough else 300
     trace = os.path.join(ctx.work, "trace.ndjson")
     resf = os.path.join(ctx.work, "random.json")
-    ctx.run([binp, "random", "-n", str(n), "-out", trace, "-res", resf], timeout=3000)
+    ctx.run([binp, "random", "-n", str(n), "-ndefault", str(600 if thorough else 60), "-out", trace, "-res", resf], timeout=3000)
     res = json.load(open(resf))
     handle_mismatches(ctx, res, "random")
     viols, accepted = ctx.validate_trace(S, "Trace_ResourceMerge", "Trace_ResourceMerge.cfg", trace, timeout=3000)
@@ -176,7 +242,16 @@ def run(ctx):
         "environment tokens stand for the representatives in harness/c19 envReps; key characters are never hex digits, "
         "inputs never contain a lone % directly followed by the text 2C",
         "a nil result is observed through the nil-safe accessors (the statement equates nil and empty)",
-        "environment cases run serially in one goroutine of one process (os.Setenv / Unsetenv)",
+        "environment cases run serially in one goroutine of one process (os.Setenv / Unsetenv); resource.Default() is computed once "
+        "per process, so every Default() case runs in its own subprocess of the harness binary (environment prepared by the parent)",
+        "composition (ResourceCompose.tla): values are projected onto source tags; a value supplied by the environment or by an option "
+        "must be exact, a generated one only well formed (service.instance.id: UUID; service.name: unknown_service:<non-empty>; "
+        "telemetry.sdk.name/language: opentelemetry/go; other built-ins: equal to the standalone detection in the same process); "
+        "telemetry.sdk.* in Default() are read as not overridable from the environment (the SDK MUST set them)",
+        "a built-in option that does not yield its documented key set on this machine (e.g. no /etc/machine-id) is skipped in the "
+        "enumerated option lists (counter new_edges_skipped_machine_specific_builtin) and only covered by the random lists, "
+        "where every option is observed standalone",
+        "option lists hold at most one WithSchemaURL (the statement does not say which of several wins)",
         "the text of errors is not compared, only errors.Is against ErrSchemaURLConflict / ErrPartialResource / the detector's own error",
     ]
     ctx.extra["rule"] = ("edges: every transition of ResourceMerge.tla / ResourceEnv.tla for the listed configs, each executed on "
